@@ -434,7 +434,11 @@ static void c11_run(vf_case *c)
         }
         vf_tag(c, "laqgs-in=%s", synth_rc ? "synthetic-all" : synth_sc ? "gsequ-factors+synthetic-scalars" : "gsequ");
         /* documented rule, with both outcomes accepted next to a threshold */
-        int p_und[4] = { c11_near(P, rowcnd, F.T), c11_near(P, amax, F.SMALL), c11_near(P, amax, F.LARGE), c11_near(P, colcnd, F.T) };
+        /* the ratio thresholds are decided exactly: rowcnd/colcnd are working-precision numbers handed over as they are, THRESH is the constant 0.1, and no
+           float or double lies strictly between the real number 0.1 and the library's double constant, so "x < 0.1" has one answer (a routine that
+           uses > where the rule says >= differs only for x == (working precision) 0.1: seed C11t); SMALL / LARGE are computed quantities and keep a band */
+        int p_und[4] = { 0, c11_near(P, amax, F.SMALL), c11_near(P, amax, F.LARGE), 0 };
+        if (c11_near(P, rowcnd, F.T)) vf_tag(c, "thr=rowcnd"); if (c11_near(P, colcnd, F.T)) vf_tag(c, "thr=colcnd");
         int p_val[4] = { rowcnd < F.T, amax < F.SMALL, amax > F.LARGE, colcnd < F.T };
         int rs_ok[2] = { 0, 0 }, cs_ok[2] = { 0, 0 };
         for (int b = 0; b < 8; b++) {
@@ -443,7 +447,7 @@ static void c11_run(vf_case *c)
             if (okc) rs_ok[v[0] || v[1] || v[2]] = 1;
         }
         cs_ok[p_val[3]] = 1; if (p_und[3]) cs_ok[!p_val[3]] = 1;
-        if (p_und[0]) vf_tag(c, "thr=rowcnd"); if (p_und[1]) vf_tag(c, "thr=small"); if (p_und[2]) vf_tag(c, "thr=large"); if (p_und[3]) vf_tag(c, "thr=colcnd");
+        if (p_und[1]) vf_tag(c, "thr=small"); if (p_und[2]) vf_tag(c, "thr=large");
         if (!p_und[0] && fabsl(rowcnd - F.T) <= 8 * eps * F.T) vf_tag(c, "thrnear=rowcnd%s", p_val[0] ? "-below" : "-above");
         if (!p_und[3] && fabsl(colcnd - F.T) <= 8 * eps * F.T) vf_tag(c, "thrnear=colcnd%s", p_val[3] ? "-below" : "-above");
         if (!p_und[1] && fabsl(amax - F.SMALL) <= 8 * eps * F.SMALL) vf_tag(c, "thrnear=small%s", p_val[1] ? "-below" : "-above");
